@@ -38,6 +38,59 @@ def sameVal (a b : Val) : Bool := a.charset == b.charset && a.bytes == b.bytes
 /-- C string view of a buffer: up to the first zero byte -/
 def cstr (b : List Byte) : List Byte := b.takeWhile (· != 0)
 
+/-- the effective name operand of set/compare as the caller states it: `len` bytes of the buffer, the C string in it
+    for `len < 0`; for a zero pointer `len` cleared bytes -/
+def nameOf (name : Option (List Byte)) (len : Int) : Option Name :=
+  match name with
+  | some b => if len < 0 then some (.text (cstr b)) else some (.text (b.take len.toNat))
+  | none => if len < 0 then none else some (.null len.toNat)
+
+/- ---------- a collection of identifiers at value level ---------- -/
+/-- operations on identifiers numbered in creation order -/
+inductive VOp where
+  | new                                   -- a new identifier (any storage): nothing set
+  | set (k : Nat) (name : Option Name)    -- `none` = an operand no value corresponds to (zero pointer, negative length)
+  | copy (k : Nat) (j : Option Nat)       -- copy from identifier `j`, or from the zero pointer (unsets)
+  | end_ (k : Nat)                        -- end of life
+  | clone (j : Option Nat)                -- a new identifier constructed as copy of `j` (or of nothing)
+  deriving Repr, Inhabited
+
+/-- slot `k` ↦ value of the identifier (`none` = no such identifier any more) -/
+abbrev Vals := List (Option Val)
+
+def Vals.slot (sp : Vals) (k : Nat) : Option Val := (sp[k]?).getD none
+
+/-- what the property demands of each operation: set stores the value (or is refused beyond the limit and changes
+    nothing), copy makes the target equal to the source, nobody else changes -/
+def Vals.step (sp : Vals) : VOp → Vals
+  | .new => sp ++ [some Val.unset]
+  | .set k nm =>
+    match Vals.slot sp k, nm.bind setVal with
+    | some _, some v => sp.set k (some v)
+    | _, _ => sp
+  | .copy k j =>
+    match Vals.slot sp k, j with
+    | none, _ => sp
+    | some _, none => sp.set k (some Val.unset)
+    | some _, some j =>
+      match Vals.slot sp j with
+      | some v => sp.set k (some v)
+      | none => sp
+  | .end_ k => match Vals.slot sp k with
+    | some _ => sp.set k none
+    | none => sp
+  | .clone j =>
+    match j with
+    | none => sp ++ [some Val.unset]
+    | some j =>
+      match Vals.slot sp j with
+      | some v => sp ++ [some v]
+      | none => sp
+
+def Vals.run (sp : Vals) : List VOp → Vals
+  | [] => sp
+  | op :: rest => Vals.run (sp.step op) rest
+
 
 /-- index of the `pos`-th value (`pos >= 1`) that is the text `t`, walking a list whose head has index `i` -/
 def walkS (t : List Byte) (step : Int) : List Val → Nat → Int → Option Int
